@@ -118,11 +118,39 @@ def build(spec, seed=0):
     return obj
 
 
+_USER = {}
+
+
+def _user_class():
+    """A Linop written by a user of the library (not one of the built-in classes): element-wise weights followed by a
+    cyclic shift of the flattened array.  Combinators must treat it like any other operator."""
+    if "cls" not in _USER:
+        from sigpy import linop as L
+
+        class UserWeightedShift(L.Linop):
+            def __init__(self, shape, w, adjoint=False):
+                self.w = w
+                self.adjoint = adjoint
+                super().__init__(shape, shape)
+
+            def _apply(self, input):
+                if self.adjoint:
+                    return np.conj(self.w) * np.roll(input.ravel(), -1).reshape(input.shape)
+                return np.roll((self.w * input).ravel(), 1).reshape(input.shape)
+
+            def _adjoint_linop(self):
+                return UserWeightedShift(self.ishape, self.w, not self.adjoint)
+        _USER["cls"] = UserWeightedShift
+    return _USER["cls"]
+
+
 def _build(spec, seed=0):
     import sigpy as sp
     from sigpy import linop as L
     op = spec["op"]
     g = spec.get
+    if op == "User":
+        return _user_class()(spec["shape"], carray(spec["shape"], seed, spec, "w"))
     if op == "Identity":
         return L.Identity(spec["shape"])
     if op == "Reshape":
